@@ -21,14 +21,43 @@ def _re_calls(fn, name):
     return out
 
 
-def expansion_regexes(fn, what):
-    """(search regex, sub regex, wrapper) used by an ``_expand_macros`` function."""
-    s = _re_calls(fn, 're.search')
-    r = _re_calls(fn, 're.sub')
-    if len(s) != 1 or len(r) != 1:
-        raise AnalysisError(f'{what}: expected one re.search and one re.sub')
-    search_re = const(s[0].args[0])
-    sub_re = const(r[0].args[0])
+def _bound_value(m, fn, name):
+    """The single expression a name is bound to, in `fn` or at module level."""
+    binds = [st.value for st in ast.walk(fn) if isinstance(st, ast.Assign) and any(isinstance(t, ast.Name) and t.id == name for t in st.targets)]
+    if not binds and m is not None:
+        binds = [st.value for st in m.tree.body if isinstance(st, ast.Assign) and any(isinstance(t, ast.Name) and t.id == name for t in st.targets)]
+    return binds[0] if len(binds) == 1 else None
+
+
+def pattern_literal(m, fn, expr, depth=0):
+    """The literal pattern behind an expression: a string, a name bound once to one, or
+    re.compile(<such>) (flags are not accepted here)."""
+    if depth > 3 or expr is None:
+        return None
+    if isinstance(const(expr), str):
+        return expr.value
+    if isinstance(expr, ast.Call) and call_name(expr) == 're.compile' and len(expr.args) == 1 and not expr.keywords:
+        return pattern_literal(m, fn, expr.args[0], depth + 1)
+    if isinstance(expr, ast.Name):
+        return pattern_literal(m, fn, _bound_value(m, fn, expr.id), depth + 1)
+    return None
+
+
+def expansion_regexes(fn, what, m=None):
+    """(search regex, sub regex, wrapper) used by an ``_expand_macros`` function.  The two
+    patterns may be literals, names bound once to literals, or precompiled (also at module level)."""
+    found = {'search': [], 'sub': []}
+    for n in ast.walk(fn):
+        if isinstance(n, ast.Call) and isinstance(n.func, ast.Attribute) and n.func.attr in found:
+            if text(n.func.value) == 're':
+                found[n.func.attr].append(pattern_literal(m, fn, n.args[0]) if n.args else None)
+            elif isinstance(n.func.value, ast.Name):
+                pl = pattern_literal(m, fn, n.func.value)
+                if pl is not None or isinstance(_bound_value(m, fn, n.func.value.id), ast.Call):
+                    found[n.func.attr].append(pl)
+    if len(found['search']) != 1 or len(found['sub']) != 1:
+        raise AnalysisError(f'{what}: expected one regex search and one regex sub')
+    search_re, sub_re = found['search'][0], found['sub'][0]
     if not isinstance(search_re, str) or not isinstance(sub_re, str):
         raise AnalysisError(f'{what}: expansion regexes are not literals')
     wrap = None
@@ -51,7 +80,7 @@ class TokTables:
         self.dximage = literal(pm.global_assign('_DXImageTransform'), '_DXImageTransform')
         tm = repo.mod('cssutils/tokenize2.py')
         exp = tm.get('Tokenizer._expand_macros')
-        self.search_re, self.sub_re, self.wrap = expansion_regexes(exp, 'Tokenizer._expand_macros')
+        self.search_re, self.sub_re, self.wrap = expansion_regexes(exp, 'Tokenizer._expand_macros', tm)
         comp = tm.get('Tokenizer._compile_productions')
         calls = _re_calls(comp, 're.compile')
         if len(calls) != 1:
@@ -193,7 +222,7 @@ class ProfileTables:
         if len(self.properties) < 9:
             raise AnalysisError('profiles.py: fewer than 9 property tables found')
         exp = m.get('Profiles._expand_macros')
-        self.search_re, self.sub_re, self.wrap = expansion_regexes(exp, 'Profiles._expand_macros')
+        self.search_re, self.sub_re, self.wrap = expansion_regexes(exp, 'Profiles._expand_macros', m)
         comp = m.get('Profiles._compile_regexes')
         self.compile_wrap = None
         self.flags = 0
